@@ -20,7 +20,7 @@ func init() {
 		Random:      c17Random,
 		RandomCount: func(tier string) int { return map[string]int{"quick": 600, "thorough": 300000}[tier] },
 		Eval:        c17Eval,
-		Rule: "CLOCK CLAUSE ONLY (the math built-ins are pure functions and not covered). programs = 1..6 ক্লক() calls whose values are printed at once, stored and printed later, or taken inside a loop / function; schedule = simulated wall clock: start in {0, +-1 s, 1e6, today, year 2250, year 1700 (negative), ...} +- offset, per-read step in {0, 1 ms, 999 ms, 1 s, hours, backward jump, random}, sub-ms fraction; some schedules also let simulated time pass with every executed step; oracle = the value of each ক্লক() call is within 1 s of the simulated wall clock at the moment of the call or of a reading taken during the call (how often an implementation reads the clock is its own business), a later instant never reads as an earlier time, ক্লক(1) is a runtime error. " +
+		Rule: "CLOCK CLAUSE ONLY (the math built-ins are pure functions and not covered). programs = 1..6 ক্লক() calls whose values are printed at once, stored and printed later, or taken inside a loop / function; schedule = simulated wall clock: start in {0, +-1 s, 1e6, today, year 2250, year 1700 (negative), ...} +- offset, per-read step in {0, 1 ms, 999 ms, 1 s, hours, backward jump, random}, sub-ms fraction; some schedules also let simulated time pass with every executed step; oracle = the value of each ক্লক() call is within 1 s of the simulated wall clock at the marker printed right before the call or of a reading taken between that marker and the next (how often an implementation reads the clock is its own business), a later instant never reads as an earlier time, ক্লক(1) is a runtime error. " +
 			"distinct_nontrivial counts distinct (program shape, clock start, step vector) triples with at least one non-default step.",
 		DistinctSet: "c17_clock_scripts",
 		Assumptions: []string{
@@ -34,6 +34,10 @@ func init() {
 		ReachTargets: []string{"fault.clock_backward_span", "reach.clock_negative_epoch", "reach.clock_zero_step", "reach.clock_far_future"},
 	})
 }
+
+// c17Mark is printed right before every ক্লক() call: the simulated wall clock at that
+// output event is "the moment of the call", whatever the implementation does inside.
+var c17Mark = KwPrint + " \"@c\";"
 
 type c17Item struct {
 	kind string // now | store | show | loop | func
@@ -53,12 +57,12 @@ func c17Program(s Src) (prog string, order []int, ncalls int, shape string) {
 			ls = append(ls, fmt.Sprintf("%s (%s b%d = 0; b%d < %d; b%d = b%d + 1) { }", KwFor, KwVar, i, i, s.Int("busy", 1, 300), i, i))
 			sh = append(sh, "work")
 		case 0, 1:
-			ls = append(ls, fmt.Sprintf("%s %s();", KwPrint, FnClock))
+			ls = append(ls, c17Mark, fmt.Sprintf("%s %s();", KwPrint, FnClock))
 			order = append(order, ncalls)
 			ncalls++
 			sh = append(sh, "now")
 		case 2:
-			ls = append(ls, fmt.Sprintf("%s t%d = %s();", KwVar, ncalls, FnClock))
+			ls = append(ls, c17Mark, fmt.Sprintf("%s t%d = %s();", KwVar, ncalls, FnClock))
 			stored = append(stored, ncalls)
 			ncalls++
 			sh = append(sh, "store")
@@ -72,21 +76,21 @@ func c17Program(s Src) (prog string, order []int, ncalls int, shape string) {
 			sh = append(sh, "show")
 		case 4:
 			k := s.Int("trips", 1, 3)
-			ls = append(ls, fmt.Sprintf("%s (%s i%d = 0; i%d < %d; i%d = i%d + 1) { %s %s(); }", KwFor, KwVar, i, i, k, i, i, KwPrint, FnClock))
+			ls = append(ls, fmt.Sprintf("%s (%s i%d = 0; i%d < %d; i%d = i%d + 1) { %s %s %s(); }", KwFor, KwVar, i, i, k, i, i, c17Mark, KwPrint, FnClock))
 			for j := 0; j < k; j++ {
 				order = append(order, ncalls)
 				ncalls++
 			}
 			sh = append(sh, fmt.Sprintf("loop%d", k))
 		default:
-			ls = append(ls, fmt.Sprintf("%s now();", KwPrint))
+			ls = append(ls, c17Mark, fmt.Sprintf("%s now();", KwPrint))
 			order = append(order, ncalls)
 			ncalls++
 			sh = append(sh, "func")
 		}
 	}
 	if ncalls == 0 {
-		ls = append(ls, fmt.Sprintf("%s %s();", KwPrint, FnClock))
+		ls = append(ls, c17Mark, fmt.Sprintf("%s %s();", KwPrint, FnClock))
 		order = append(order, 0)
 		ncalls = 1
 		sh = append(sh, "now")
@@ -114,7 +118,7 @@ func c17Random(s Src, tier string) *Case { return c17Case(s) }
 func c17Systematic(tier string) []*Case {
 	var out []*Case
 	// every start x every single step kind, two immediate reads
-	prog := lines(KwPrint+" "+FnClock+"();", KwPrint+" "+FnClock+"();")
+	prog := lines(c17Mark, KwPrint+" "+FnClock+"();", c17Mark, KwPrint+" "+FnClock+"();")
 	steps := []int64{0, 1, 999, 1000, 3600_000, 86_400_000 * 400, -5000, -1}
 	for _, st := range clockStarts {
 		for _, sp := range steps {
@@ -131,7 +135,8 @@ func c17Systematic(tier string) []*Case {
 	// resolution, a later instant may not read as an earlier time
 	for _, base := range []int64{1_727_000_000_000, 0, -5000, 8_835_868_800_000} {
 		for off := int64(-3); off <= 0; off++ {
-			prog5 := lines(KwPrint+" "+FnClock+"();", KwPrint+" "+FnClock+"();", KwPrint+" "+FnClock+"();", KwPrint+" "+FnClock+"();", KwPrint+" "+FnClock+"();")
+			one := KwPrint + " " + FnClock + "();"
+			prog5 := lines(c17Mark, one, c17Mark, one, c17Mark, one, c17Mark, one, c17Mark, one)
 			c := scriptCfg(prog5, "")
 			c.ClockStartMs = base + off
 			c.ClockStepsMs = []int64{1, 1, 1, 1, 1}
@@ -145,7 +150,7 @@ func c17Systematic(tier string) []*Case {
 	// allowed (the limit itself is not fixed by any property), reading the clock there is too
 	for _, depth := range []int{2000, 19999, 49999} {
 		plain := lines(fmt.Sprintf("%s down(n) { %s (n > 0) { %s down(n - 1); } %s 7; }", KwFun, KwIf, KwReturn, KwReturn), fmt.Sprintf("%s down(%d);", KwPrint, depth))
-		p := lines(fmt.Sprintf("%s down(n) { %s (n > 0) { %s down(n - 1); } %s %s(); }", KwFun, KwIf, KwReturn, KwReturn, FnClock), fmt.Sprintf("%s down(%d);", KwPrint, depth))
+		p := lines(fmt.Sprintf("%s down(n) { %s (n > 0) { %s down(n - 1); } %s %s %s(); }", KwFun, KwIf, KwReturn, c17Mark, KwReturn, FnClock), fmt.Sprintf("%s down(%d);", KwPrint, depth))
 		c0 := scriptCfg(plain, "")
 		c0.Budget = 60000000
 		c := scriptCfg(p, "")
@@ -157,7 +162,7 @@ func c17Systematic(tier string) []*Case {
 	}
 	// in interactive mode every line sees the real ক্লক, whatever an earlier line did to the name
 	{
-		stdin := lines(FnClock+" = 0;", KwVar+" keep = "+FnClock+";", KwPrint+" \"#A#\";", KwPrint+" "+FnClock+"();", KwPrint+" \"#B#\";")
+		stdin := lines(FnClock+" = 0;", KwVar+" keep = "+FnClock+";", KwPrint+" \"#A#\";", c17Mark, KwPrint+" "+FnClock+"();", KwPrint+" \"#B#\";")
 		c := replCfg(stdin)
 		c.ClockStartMs = 1_727_000_000_000
 		cs := &Case{Prop: "C17", Kind: "clock-repl", Sig: "repl:rebound-earlier", Program: stdin, Runs: []Run{{Role: "clock", Cfg: c}}}
@@ -214,47 +219,32 @@ func c17Eval(cs *Case, ctx *EvalCtx) []Violation {
 		add("unexpected-diagnostic", fmt.Sprintf("exit=%d stderr=%q", o.ExitStatus(), o.Stderr))
 		return vs
 	}
-	// For every ক্লক() call: the simulated wall clock at the moment of the call and every
-	// reading of it taken while the call was in progress. How many readings an
-	// implementation takes, and when (at start-up, per call, twice per call), is its own
-	// business; the value it returns must be the current time.
+	// For every ক্লক() call: the simulated wall clock when the marker right before it was
+	// printed, and every reading of the clock taken from then until the next marker. How many
+	// readings an implementation takes, and when (at start-up, per call, twice per call,
+	// none because it believes it knows), is its own business; the value must be the current time.
 	type callRef struct {
-		at    int64   // wall clock (ms) when the built-in was entered
-		reads []int64 // wall-clock readings taken during the call
+		at    int64   // wall clock (ms) at the marker
+		reads []int64 // wall-clock readings taken after it
 	}
 	var refs []callRef
-	open := false
 	for _, e := range o.Res.Events {
 		switch e.Kind {
-		case "BUILTIN":
-			refs = append(refs, callRef{at: e.N})
-			open = true
+		case "OUT":
+			if strings.Contains(e.Data, "@c") {
+				refs = append(refs, callRef{at: e.T})
+			}
 		case "NOW":
-			if open {
+			if len(refs) > 0 {
 				refs[len(refs)-1].reads = append(refs[len(refs)-1].reads, e.N)
 			}
-		case "OUT", "ERR", "EXIT", "READ":
-			open = false
 		}
 	}
 	if len(refs) != ex.Calls {
-		// no call events (the built-ins are not dispatched through a Call method any more):
-		// fall back to "the k-th reading belongs to the k-th call" if that is at least consistent
-		var all []int64
-		for _, e := range o.Res.Events {
-			if e.Kind == "NOW" {
-				all = append(all, e.N)
-			}
-		}
-		if len(all) != ex.Calls {
-			fatal2("C17: cannot attribute %d clock readings / %d built-in calls to the %d ক্লক() calls of the program", len(all), len(refs), ex.Calls)
-		}
-		refs = nil
-		for _, n := range all {
-			refs = append(refs, callRef{at: n, reads: []int64{n}})
-		}
+		add("output-shape", fmt.Sprintf("expected %d call markers, saw %d: stdout=%q", ex.Calls, len(refs), o.Stdout))
+		return vs
 	}
-	// nows[k]: the instant call k is held to (its last reading, or the moment of the call if it took none)
+	// nows[k]: the instant call k is held to when two calls are compared (its last reading, or the marker if it took none)
 	nows := make([]int64, len(refs))
 	for k, r := range refs {
 		nows[k] = r.at
@@ -265,14 +255,17 @@ func c17Eval(cs *Case, ctx *EvalCtx) []Violation {
 	stdout := o.Stdout
 	if cs.Kind == "clock-repl" {
 		// the value sits between the two marker lines; whatever the prompt looks like,
-		// the number is the trailing numeral of the line that follows marker A
+		// the number is the trailing numeral of the line that follows the call marker
 		a := strings.Index(stdout, "#A#\n")
 		b := strings.Index(stdout, "#B#\n")
 		val := ""
 		if a >= 0 && b > a {
-			seg := stdout[a+4 : b]
-			if nl := strings.Index(seg, "\n"); nl >= 0 {
-				val = regexp.MustCompile(`[-+]?[0-9]*\.?[0-9]+(?:[eE][-+]?[0-9]+)?$`).FindString(seg[:nl])
+			segLines := strings.Split(stdout[a+4:b], "\n")
+			for i := 0; i+1 < len(segLines); i++ {
+				if strings.HasSuffix(segLines[i], "@c") {
+					val = regexp.MustCompile(`[-+]?[0-9]*\.?[0-9]+(?:[eE][-+]?[0-9]+)?$`).FindString(segLines[i+1])
+					break
+				}
 			}
 		}
 		stdout = ""
@@ -280,9 +273,11 @@ func c17Eval(cs *Case, ctx *EvalCtx) []Violation {
 			stdout = val + "\n"
 		}
 	}
-	ls := strings.Split(strings.TrimSuffix(stdout, "\n"), "\n")
-	if stdout == "" {
-		ls = nil
+	var ls []string
+	for _, l := range strings.Split(strings.TrimSuffix(stdout, "\n"), "\n") {
+		if l != "@c" && stdout != "" {
+			ls = append(ls, l)
+		}
 	}
 	if len(ls) != len(ex.PrintOrder) {
 		add("output-shape", fmt.Sprintf("expected %d printed values, got %q", len(ex.PrintOrder), o.Stdout))
